@@ -463,7 +463,7 @@ pub mod rewrite {
     module_reference: &ModuleReference,
   ) -> Option<String> {
     let module = state.parsed_modules.get(module_reference)?;
-    let errors = state.errors.get(module_reference).unwrap();
+    let errors = state.get_errors(module_reference);
     if errors.iter().any(|e| e.is_syntax_error()) {
       None
     } else {
